@@ -565,6 +565,44 @@ pub mod t18 {
         }
         nodes
     }
+    pub fn ctl_records_before_shift(tokens: &[u8]) -> Vec<ParseNode> {
+        let mut nodes: Vec<ParseNode> = vec![];
+        let mut next_parent: Option<usize> = None;
+        let mut check_for_list = false;
+        for t in tokens.iter() {
+            let current_id = nodes.len();
+            let parent = match *t {
+                0 => None,
+                1 => {
+                    next_parent = Some(current_id);
+                    None
+                }
+                2 => {
+                    check_for_list = true;
+                    None
+                }
+                3 => {
+                    let mut parent = next_parent;
+                    let mut our_id = current_id;
+                    next_parent = Some(our_id);
+                    if check_for_list {
+                        our_id = current_id + 1;
+                        parent = Some(current_id);
+                        nodes.push(ParseNode { parent: None });
+                        check_for_list = false;
+                    }
+                    parent
+                }
+                4 => next_parent,
+                5 => None,
+                6 => None,
+                7 => None,
+                _ => None,
+            };
+            nodes.push(ParseNode { parent });
+        }
+        nodes
+    }
     pub fn ctl_records_unshifted_id(tokens: &[u8]) -> Vec<ParseNode> {
         let mut nodes: Vec<ParseNode> = vec![];
         let mut next_parent: Option<usize> = None;
@@ -669,6 +707,51 @@ pub mod t19 {
             nodes.push(ParseNode { parent: links.0, right: links.1 });
         }
         nodes
+    }
+}
+pub mod n8 {
+    /// predicts the overflow of base ** exponent from the exponent and the magnitude of the base
+    pub fn ctl_power__threshold(v1: i32, v2: i32) -> Option<i32> {
+        if v2 < 0 {
+            return None;
+        }
+        if v2 >= 31 && v1.unsigned_abs() > 1 {
+            return None;
+        }
+        let (v, o) = v1.overflowing_pow(v2 as u32);
+        if o { None } else { Some(v) }
+    }
+    pub fn ok_power__flag(v1: i32, v2: i32) -> Option<i32> {
+        if v2 < 0 {
+            return None;
+        }
+        let (v, o) = v1.overflowing_pow(v2 as u32);
+        if o { None } else { Some(v) }
+    }
+    pub fn ok_bitwise_shift_left__domain(v1: i32, v2: i32) -> Option<i32> {
+        if v2 < 0 || v2 > 31 {
+            return None;
+        }
+        Some(v1 << v2)
+    }
+}
+pub mod d11 {
+    pub struct BuildNode {
+        pub parse_node_index: usize,
+        pub jump: usize,
+    }
+    impl BuildNode {
+        pub fn new(parse_node_index: usize, jump: usize) -> Self {
+            BuildNode { parse_node_index, jump }
+        }
+    }
+    pub fn ok_own_slots(nodes: &mut Vec<Option<BuildNode>>, left: usize, right: usize, jump: usize) {
+        nodes[right] = Some(BuildNode::new(right, jump));
+        nodes[left] = Some(BuildNode::new(left, jump));
+    }
+    pub fn ctl_swapped_slots(nodes: &mut Vec<Option<BuildNode>>, left: usize, right: usize, jump: usize) {
+        nodes[left] = Some(BuildNode::new(right, jump));
+        nodes[right] = Some(BuildNode::new(left, jump));
     }
 }
 pub mod g4c {
